@@ -108,6 +108,7 @@ Inductive observed :=
   | ObsRaise.
 
 Record case := MkCase {
+  c_api : nat;                     (* 0: inv_quad_logdet, 1: logdet / torch.logdet, 2: inv_quad *)
   c_S : settings float;
   c_op : bop float;
   c_R : rhs_in float;
@@ -120,7 +121,20 @@ Record case := MkCase {
 }.
 
 Definition run_case (c : case) : result (out float * out float) :=
-  inv_quad_logdet ArFloat jacobi_eigh (c_S c) (c_op c) (c_R c) (c_logdet c) (c_reduce c) (c_probes c).
+  match c_api c with
+  | 0 => inv_quad_logdet ArFloat jacobi_eigh (c_S c) (c_op c) (c_R c) (c_logdet c) (c_reduce c) (c_probes c)
+  | 1 => match logdet ArFloat jacobi_eigh (c_S c) (c_op c) (c_probes c) with
+         | ROk ld => ROk (ONone, ld)
+         | RErr e => RErr e
+         end
+  | _ => match c_R c with
+         | Some R => match inv_quad ArFloat (c_S c) (c_op c) R (c_reduce c) with
+                     | ROk iq => ROk (iq, ONone)
+                     | RErr e => RErr e
+                     end
+         | None => RErr ENoRhsNoLogdet
+         end
+  end.
 
 Definition check_case (c : case) : bool :=
   match run_case c, c_obs c with
